@@ -309,6 +309,69 @@ def r_probectx(ctx, rid="C10.probectx"):
                           "the claim was recorded with context %r and arguments %r" % (label, ev, args, want_ev, want_args))
 
 
+def r_choiceorder(ctx):
+    import copy
+    rid = "C10.choiceorder"
+    ctx.rule(rid, "CBORValidator::visit_group_transactional on a map with two equivalent keys and two `//` alternatives: when the first "
+                  "alternative matches without member errors but claims only one of the two physical pairs, what happens next (retry with the "
+                  "second alternative, which owns both pairs) does not depend on whether the claimed pair is encoded before or after the one "
+                  "left over — the two documents are permutations of the same pairs (abstract evaluation of the whole function; "
+                  "visit_group_choice scripted to claim the given pairs)", floor=2)
+    f = ctx.facts
+    fi = vt.visitor_fn(f, "cbor", "visit_group_transactional")
+    unc = vt.visitor_fn(f, "cbor", "is_unconsumed_map_entry")
+
+    def scenario(keys, claims_by_alt):
+        K = lambda n: ("enum", "Value::Text", [("str", n)])
+        obj = vt.self_obj("cbor", ("enum", "Value::Map", [OPAQUE]))
+        obj[2]["state"][2].update({"is_multi_group_choice": False, "is_ctrl_map_equality": False})
+        obj[2].update({"claimed_map_entries": MutList(), "errors": MutList()})
+        calls = []
+
+        def visit_group_choice(run, node, recv):
+            i = len(calls)
+            calls.append(i)
+            cl = claims_by_alt[min(i, len(claims_by_alt) - 1)]
+            recv[2]["claimed_map_entries"] = MutList(cl)
+            return ("Ok", ("tuple", []))
+
+        def clone(run, node, recv):
+            if isinstance(recv, tuple) and recv[:2] == ("enum", "Self"):
+                return copy.deepcopy(recv)
+            return NotImplemented
+        group = ("enum", "Group", {"group_choices": MutList([("enum", "GroupChoice", {"i": 0}), ("enum", "GroupChoice", {"i": 1})])})
+        r = vt.Run(f, "cbor", "default", {}, {"self": obj, "group": group, "map_keys": ("Some", MutList([K(k) for k in keys]))},
+                   scripts={"visit_group_choice": visit_group_choice, "clone": clone,
+                            "Self::is_unconsumed_map_entry": lambda run, node, args: run.it.call_fn_node(unc.node, args)})
+        base = r.on_call
+
+        def on_call(kind, name, node, args, recv, base=base):
+            if kind == "method" and name == "add_error" and isinstance(recv, tuple) and recv[:2] == ("enum", "Self"):
+                recv[2]["errors"].append(("str", "error"))
+                return ("tuple", [])
+            return base(kind, name, node, args, recv)
+        r.it.on_call = on_call
+        res = r.run(fi.node)
+        me = r.it.lookup("self")
+        errs = me[2]["errors"]
+        if absint.has_opaque(res) or not isinstance(errs, (list, MutList)):
+            raise absint.Unknown("the result / error list could not be evaluated")
+        return ("accept" if len(errs) == 0 else "reject", len(calls))
+    outcomes = {}
+    for label, claims in (("claimed pair encoded after the one left over", [[1], [0, 1]]), ("claimed pair encoded before the one left over", [[0], [0, 1]])):
+        key = "equal keys|%s" % label
+        try:
+            outcomes[label] = scenario(["a", "a"], claims)
+        except absint.Unknown as e:
+            ctx.incomplete_msg(rid, "%s: %s" % (key, e))
+            continue
+        ctx.site(rid, key, fi.file, fi.line, {"verdict": outcomes[label][0], "alternatives_tried": outcomes[label][1]})
+    if len(outcomes) == 2 and len(set(outcomes.values())) > 1:
+        ctx.violation(rid, "equal-keys|order-dependent", fi.file, fi.line, "with two equivalent keys of which the first alternative claims one: %s — the "
+                      "verdict for {\"a\": x, \"a\": y} differs from the verdict for {\"a\": y, \"a\": x}"
+                      % "; ".join("%s -> %s after %d alternative(s)" % (k, v[0], v[1]) for k, v in outcomes.items()))
+
+
 def run(ctx):
     ctx.guarded("C10.jsonorder", r_jsonorder)
     ctx.guarded("C10.ledger", r_ledger)
@@ -316,6 +379,7 @@ def run(ctx):
     ctx.guarded("C10.reassign", r_reassign)
     ctx.guarded("C10.candidates", r_candidates)
     ctx.guarded("C10.probectx", r_probectx)
+    ctx.guarded("C10.choiceorder", r_choiceorder)
 
 
 def child_obj():
